@@ -83,6 +83,7 @@ Inductive effect :=
 | Return (e : cexpr)
 | Store (target : string) (e : cexpr)        (* target = e, e already converted to the target's type *)
 | PtrAdd (target : string) (e : cexpr)       (* pointer += e (e converted to ptrdiff_t) *)
+| PtrSub (target : string) (e : cexpr)       (* pointer -= e *)
 | Local (x : string) (e : cexpr)             (* T x = e; a local integer object *)
 | Assert (e : cexpr).                        (* SBEPP_ASSERT(e): the handler is called iff e is 0 *)
 
@@ -91,6 +92,7 @@ Definition eff_target (f : effect) : string :=
   | Return _ => "return"
   | Store t _ => t ++ "="
   | PtrAdd t _ => t ++ "+="
+  | PtrSub t _ => t ++ "-="
   | Local x _ => x ++ ":="
   | Assert _ => "assert"
   end.
@@ -104,6 +106,7 @@ Fixpoint effs_eval (env : list (string * Z)) (fs : list effect) : option (list Z
   | Return e :: r => obind (ceval env e) (fun v => obind (effs_eval env r) (fun vs => Some (v :: vs)))
   | Store t e :: r => obind (ceval env e) (fun v => obind (effs_eval ((t, v) :: env) r) (fun vs => Some (v :: vs)))
   | PtrAdd t e :: r => obind (ceval env e) (fun v => obind (effs_eval env r) (fun vs => Some (v :: vs)))
+  | PtrSub t e :: r => obind (ceval env e) (fun v => obind (effs_eval env r) (fun vs => Some (v :: vs)))
   | Local x e :: r => obind (ceval env e) (fun v => obind (effs_eval ((x, v) :: env) r) (fun vs => Some (v :: vs)))
   | Assert e :: r => obind (ceval env e) (fun v => if v =? 0 then Some (0 :: nil) else
                      obind (effs_eval env r) (fun vs => Some (v :: vs)))
